@@ -33,11 +33,20 @@ def run(d):
         from cryptography.hazmat.primitives.ciphers import Cipher, algorithms, modes
         e = Cipher(algorithms.AES(b("key")), modes.ECB()).encryptor()
         return f"ok {hx(e.update(b('x')) + e.finalize())} {d['x']}"
-    if k in ("tamper", "tunwrap"):
+    if k in ("tamper", "tunwrap", "tamper-apdu", "tamper-conn"):
         try:
             s = sc_obj(d["sc"])
             if k == "tamper":
                 r = security.decrypt(s, b("title"), d["ic"], b("key"), b("x"), b("ak"))
+            elif k == "tamper-apdu":
+                from dlms_cosem.protocol import xdlms
+                r = xdlms.GeneralGlobalCipher(b("title"), s, d["ic"], b("x")).to_plain_apdu(b("key"), b("ak"))
+            elif k == "tamper-conn":
+                from dlms_cosem.connection import DlmsConnection
+                conn = DlmsConnection(client_system_title=b"CLIENT01", global_encryption_key=b("key"), global_authentication_key=b("ak"),
+                                      security_suite=s.security_suite, meter_system_title=bytes.fromhex(d["remembered_title"]),
+                                      meter_invocation_counter=d["remembered_ic"])
+                r = conn.decrypt(b("x"), system_title=b("title"), invocation_counter=d["ic"])
             else:
                 r = security.unwrap_key(s, b("key"), b("x"))
         except fw._Timeout:
@@ -51,6 +60,14 @@ def run(d):
             r = security.encrypt(s, b("title"), d["ic"], b("key"), b("x"), b("ak"))
         elif k == "dec":
             r = security.decrypt(s, b("title"), d["ic"], b("key"), b("x"), b("ak"))
+            if d.get("via_apdu"):
+                # the same removal through the other two entrances the library offers: the general-glo-ciphering APDU object
+                # and the connection's decrypt with explicit title and counter - same parameters, same answer
+                from dlms_cosem.connection import DlmsConnection
+                from dlms_cosem.protocol import xdlms
+                r2 = xdlms.GeneralGlobalCipher(b("title"), s, d["ic"], b("x")).to_plain_apdu(b("key"), b("ak"))
+                if bytes(r2) != bytes(r):
+                    return f"ok {hx(r)} | ok {hx(r)} !apdu-object-gives:{hx(r2)}"
         elif k == "gmac":
             r = security.gmac(s, b("title"), d["ic"], b("key"), b("ak"), b("x"))
         elif k == "wrap":
@@ -103,6 +120,15 @@ class C05(fw.Prop):
         else:
             line = f"sec {k} {d['sc']} {d['title']} {d['ic']} {d['key']} {d['ak']} {d['x']}"
         kind = "model" if k == "block" else ("prop" if k == "sc" else "split")
+        if k in ("tamper-apdu", "tamper-conn"):
+            # (the error class of these entrances is their own business: only "never data" is demanded)
+            line, kind = "echo refused", "prop"
+            inner = run
+
+            def run_(dd=d):
+                r = inner(dd)
+                return "ok refused" if r.startswith("refused") else "ok refused !" + r
+            return fw.Case(line, run_, kind, d, tags=(k, d.get("tag", "x")))
         return fw.Case(line, lambda: run(d), kind, d, tags=(k, d.get("tag", "x")))
 
     def cases(self, rng, tier, deep):
@@ -138,7 +164,7 @@ class C05(fw.Prop):
             yield mk(dict(k="enc", x=hx(pt), tag="lengths", **p))
             s = sc_obj(p["sc"])
             ct = ref_gcm(bytes.fromhex(p["key"]), bytes.fromhex(p["title"]) + p["ic"].to_bytes(4, "big"), s.to_bytes() + bytes.fromhex(p["ak"]), pt)
-            yield mk(dict(k="dec", x=hx(ct), tag="lengths", **p))
+            yield mk(dict(k="dec", x=hx(ct), tag="lengths", via_apdu=(p["sc"] & 0x30 == 0x30), **p))
         # gmac with challenges of 0..64 bytes
         for n in (range(0, 65) if deep else [0, 1, 8, 16, 17, 32, 63, 64]):
             yield mk(dict(k="gmac", x=hx(rb(n)), tag="challenge-lengths", **params(scb=rng.choice([0x10, 0x11, 0x12]))))
@@ -161,6 +187,16 @@ class C05(fw.Prop):
             yield mk(dict(k="dec", x=hx(rb(30)), tag="counter-range", **{**params(), "ic": ic}))
         for n in range(0, 14):
             yield mk(dict(k="dec", x=hx(rb(n)), tag="short-text", **params()))
+        # a connection that remembers the meter's genuine title and counter but is asked to remove protection with other ones
+        for suite in (0, 1, 2):
+            p = params(suite=suite, scb=0x30 + suite)
+            p["ic"] = rng.choice([5, 1000, 2 ** 31])
+            pt = rb(20)
+            ct = ref_gcm(bytes.fromhex(p["key"]), bytes.fromhex(p["title"]) + p["ic"].to_bytes(4, "big"), bytes([p["sc"]]) + bytes.fromhex(p["ak"]), pt)
+            for bad_ic in (0, p["ic"] ^ 1, p["ic"] + 1):
+                yield mk(dict(k="tamper-conn", x=hx(ct), tag="counter-conn", remembered_title=p["title"], remembered_ic=p["ic"], **{**p, "ic": bad_ic}))
+            for bad_title in ("", hx(rb(8))):
+                yield mk(dict(k="tamper-conn", x=hx(ct), tag="title-conn", remembered_title=p["title"], remembered_ic=p["ic"], **{**p, "title": bad_title or "-"}))
         # key wrap round trips and tampering
         for _ in range(200 if deep else 30):
             suite = rng.choice([0, 1, 2])
@@ -202,6 +238,18 @@ class C05(fw.Prop):
                     yield mk(dict(k="tamper", x=hx(ct), tag=name + "-bitflip", **{**p, name: hx(x)}))
             for bit in range(32):
                 yield mk(dict(k="tamper", x=hx(ct), tag="counter-bitflip", **{**p, "ic": p["ic"] ^ (1 << bit)}))
+            # the same single-bit differences through the APDU object, and through a connection that remembers the genuine
+            # title and counter while it is asked to use the altered ones (0 and the empty title included)
+            if p["sc"] & 0x30 == 0x30:
+                for name, val in (("key", key), ("ak", ak), ("title", title)):
+                    for bit in rng.sample(range(len(val) * 8), 6):
+                        x = bytearray(val)
+                        x[bit // 8] ^= 1 << (bit % 8)
+                        yield mk(dict(k="tamper-apdu", x=hx(ct), tag=name + "-bitflip-apdu", **{**p, name: hx(x)}))
+                if p["sc"] == 0x30 + (p["sc"] & 15):
+                    for bad_ic in sorted({0, p["ic"] ^ 1, p["ic"] ^ (1 << 31)} - {p["ic"]}):
+                        yield mk(dict(k="tamper-conn", x=hx(ct), tag="counter-conn", remembered_title=p["title"], remembered_ic=p["ic"],
+                                      **{**p, "ic": bad_ic}))
             for bit in range(8):
                 v = p["sc"] ^ (1 << bit)
                 if v & 0x30 == 0:
